@@ -17,10 +17,14 @@ struct Step
 {
   int id;
   uint64_t seed;
+  int lseed = 0; // seed ARGUMENT forced on the random procedures of this call (0: drawn; -1: the process's initial seed)
 };
+// the whole case (reference child and history child alike) runs with law_set_old_style(false): a documented option
+static bool g_newStyle = false;
 
 static std::string runObserved(const Step& s)
 {
+  c10c::forcedSeed() = s.lseed;
   Rng q(s.seed);
   return c10c::catalogue()[s.id].fn(q);
 }
@@ -30,6 +34,8 @@ static c10::Child runHistory(const std::vector<Step>& prefix, const Step& obs, b
 {
   return c10::run_child([&]() -> std::string {
     const auto& C = c10c::catalogue();
+    c10c::initialSeed() = law_get_random_seed();
+    if (g_newStyle) law_set_old_style(false);
     for (size_t i = 0; i < prefix.size(); i++)
     {
       c10::progress("@" + std::to_string(i) + "\n");
@@ -75,6 +81,19 @@ static void run_case(Rng& r, Ctx& c)
   Step obs{r.irange(0, nobs - 1), r.next()};
   int L = 1 + (int)(-std::log(1. - r.u01()) * 7.);
   if (L > 25) L = 25;
+  // Seeded histories: the generator style is a documented option set for the WHOLE case; several calls of the history
+  // are given the same seed argument as the observed call (a repeated seed must restart the stream)
+  g_newStyle     = r.coin(0.35);
+  bool forceCase = g_newStyle || r.coin(0.2);
+  int S          = r.coin(0.1) ? -1 : r.irange(1, 100000);
+  std::vector<int> randomIds, singleSeedIds;
+  for (int i = 0; i < nobs; i++)
+    if (C[i].random) { randomIds.push_back(i); if (std::string(C[i].name) != "db-random") singleSeedIds.push_back(i); }
+  if (forceCase)
+  {
+    if (r.coin(0.8)) obs.id = r.pick(randomIds);
+    obs.lseed = S;
+  }
   std::vector<Step> prefix;
   int nfailing = 0;
   for (int i = 0; i < L; i++)
@@ -84,10 +103,19 @@ static void run_case(Rng& r, Ctx& c)
     if (u < 0.25) id = obs.id;                                   // same kind of call on other objects
     else if (u < 0.50) id = r.irange(nobs, (int)C.size() - 1);   // a failing call
     else id = r.irange(0, nobs - 1);
-    nfailing += C[id].failing;
-    prefix.push_back({id, r.next()});
+    Step st{id, r.next()};
+    if (forceCase && C[id].random && r.coin(0.6)) st.lseed = S;
+    prefix.push_back(st);
   }
-  c.setSig(std::string("hist:") + C[obs.id].name + (nfailing ? ":with-failing" : ""));
+  if (forceCase && r.coin(0.6))
+  {
+    // the call just before the observed one seeds with the same value
+    Step st{r.coin() && C[obs.id].random ? obs.id : r.pick(singleSeedIds), r.next()};
+    st.lseed = S;
+    prefix.back() = st;
+  }
+  for (auto& e : prefix) nfailing += C[e.id].failing;
+  c.setSig(std::string("hist:") + C[obs.id].name + (nfailing ? ":with-failing" : "") + (g_newStyle ? ":law-new-style" : "") + (forceCase ? ":same-seed" : ""));
   c.puts("observed", C[obs.id].name);
   c.puts("prefix", prefixNames(prefix));
 
@@ -150,6 +178,7 @@ static void run_case(Rng& r, Ctx& c)
   std::vector<Step> cur = prefix;
   Step target           = obs;
   std::string nature    = "result-differs";
+  const std::string styleTag = g_newStyle ? "law-new-style:" : "";
   if (!B.ok)
   {
     std::string mk = lastMarker(B);
@@ -204,7 +233,7 @@ static void run_case(Rng& r, Ctx& c)
   }
   std::string seeds;
   for (auto& e : cur) seeds += std::to_string(e.seed) + ",";
-  c.truth("hist-digest", "C10:history:" + nature + ":" + guilty + "->" + C[target.id].name, false,
+  c.truth("hist-digest", "C10:history:" + nature + ":" + styleTag + guilty + "->" + C[target.id].name, false,
           "minimal prefix: " + prefixNames(cur) + " seeds=" + seeds + " observed seed=" + std::to_string(target.seed) + "; full prefix: " + prefixNames(prefix));
 }
 int main(int argc, char** argv) { return run_main(argc, argv, "C10history", run_case); }
